@@ -1289,3 +1289,172 @@ class ConcFamily:
 
 
 REGISTRY["C11"] = ConcFamily("C11")
+
+
+# ---------------------------------------------------------------------------
+# compliance family (C19): the suite on one long-lived server in permuted orders (verdicts + wire trace
+# validated against GribiServer), and a catalogue of single-requirement faulty servers
+
+class CompFamily:
+    FAMILY = "compliance"
+
+    def __init__(self, prop):
+        self.prop = prop
+
+    def validate(self, ctx, trace, name):
+        cfg = ('SPECIFICATION STraceSpec\nCONSTANTS\n  DefaultNI = "DEFAULT"\n  TraceFile = "trace.ndjson"\n'
+               'POSTCONDITION TraceAccepted\nCHECK_DEADLOCK FALSE\n')
+        run = ctx.tlc("GribiServerTrace", None, name=name, workers=1, cfg_text=cfg, extra_files={trace: "trace.ndjson"}, timeout=3000, heap="12g")
+        matched, total, mism = parse_trace_report(run)
+        if matched != total:
+            raise Infra(f"trace validation stopped at line {matched + 1} of {total}\n" + run.tail())
+        return total, mism
+
+    @staticmethod
+    def tests_of(trace):
+        """[(name, first_line, last_line, event)] per test of a recorded suite run."""
+        out, begin, name = [], None, None
+        with open(trace) as fh:
+            for i, line in enumerate(fh, 1):
+                if line.startswith('{"ev":"ctestbegin"'):
+                    begin, name = i, json.loads(line)["name"]
+                elif line.startswith('{"ev":"ctest"'):
+                    out.append((name, begin, i, json.loads(line)))
+        return out
+
+    def run(self, ctx):
+        res = Result()
+        ctx.build_vh()
+        quick = ctx.tier == "quick"
+        mc = require_ok(ctx.tlc("GribiServer_MC", None, name="mc", workers=vlib.NCPU, timeout=3000, heap="24g",
+                                cfg_text=srv_cfg(MaxMsgs=5 if quick else 6, MaxOpen=2, HiVals=(0, 1), LoVals=(1, 2), WithFlushRPC=True, AckModes=("RIB", "RIB_FIB"))),
+                        "model checking GribiServer_MC")
+        rng = random.Random(ctx.seed)
+        names = [("DEFAULT", "NON-DEFAULT-VRF"), ("main", "blue"), ("default", "DEFAULT-2"), ("DEFAULT", "vrf/1")]
+        def perm():
+            return (rng.randrange(1, 10**6), rng.choice([1, 7, 1000, 2**20, 2**29]), *rng.choice(names))
+        perms = [perm()] if quick else [(0, 1, *names[0])] + [perm() for _ in range(5)]
+        perms = [(s_, b_, d_, v_) for (s_, b_, d_, v_) in perms]
+        events = segs = nontrivial = 0
+        samples = []
+        ignored = 0
+        leakers = {}
+        readers = set()
+        all_tests = {}
+
+        def judge_suite(trace, label, seed, base, dn, vn):
+            nonlocal events, segs, nontrivial, ignored
+            total, mism = self.validate(ctx, trace, f"validate-{label}")
+            events += total
+            tests = self.tests_of(trace)
+            segs += len(tests)
+            order = [t[0] for t in tests]
+            overlapped = [(a, b) for (_, a, b, e) in tests if e.get("overlap")]
+            gets = set()
+            with open(trace) as fh:
+                for i, line in enumerate(fh, 1):
+                    if '"ev":"get"' in line:
+                        gets.add(i)
+            for idx, (name, a, b, e) in enumerate(tests):
+                all_tests[name] = e.get("nofwd", False)
+                if any(a <= g <= b for g in gets):
+                    readers.add(name)
+                if e.get("pass") and not e.get("skipped"):
+                    nontrivial += 1
+                    if e.get("left", 0) > 0:
+                        leakers.setdefault(name, (e["left"], e.get("nofwd", False)))
+                if not e.get("pass") and not e.get("skipped"):
+                    rp = os.path.join(vlib.ROOT, "replays", f"C19-{vlib.sha(name + label + str(seed))}.json")
+                    json.dump({"property": "C19", "family": "compliance", "test": name, "run": label, "permutation_seed": seed, "election_base": base,
+                               "default_ni": dn, "vrf": vn, "ran_before": order[:idx], "msg": e.get("msg")}, open(rp, "w"), indent=1)
+                    res.violations.append({"replay": rp, "what": f"compliance test {name!r} failed against the conformant reference server in run {label} (after {order[idx-1] if idx else 'nothing'!r}; election base {base}, instances {dn}/{vn}): {e.get('msg')}"})
+            other = collections.Counter()
+            for (ln, ev, comps) in mism:
+                if any(a <= ln <= b for (a, b) in overlapped):
+                    ignored += 1
+                    continue
+                for c in comps:
+                    if c == "compTestFailed" or c.startswith("KF:"):
+                        continue
+                    owners = srv_attr(c, ev, {})
+                    other[("/".join(sorted(owners)) or "unattributed") + ":" + c] += 1
+            for kk, n in other.items():
+                res.notes.append(f"wire trace of conformant run {label} deviates from GribiServer: {n} x {kk}")
+            return order
+
+        for k, (seed, base, dn, vn) in enumerate(perms):
+            trace = os.path.join(ctx.work, f"suite{k}.ndjson")
+            p = ctx.run_vh(["comp-run", "-seed", str(seed), "-base", str(base), "-defni", dn, "-vrf", vn, "-out", trace], timeout=3000)
+            if p.returncode != 0:
+                raise Infra("vh comp-run failed: " + p.stdout[-1500:] + p.stderr[-3000:])
+            order = judge_suite(trace, f"suite{k}", seed, base, dn, vn)
+            if len(samples) < 2:
+                samples.append({"permutation_seed": seed, "election_base": base, "default_ni": dn, "vrf": vn, "first_tests": order[:6]})
+        # directed orders: a test that leaves entries behind is run right before every other test of its server
+        # (tests that read the RIB back first); nothing to do when every test cleans up
+        directed = []
+        for li, (lname, (left, nofwd)) in enumerate(sorted(leakers.items())):
+            targets = [t for t in sorted(all_tests) if t != lname and all_tests[t] == nofwd]
+            targets.sort(key=lambda t: (t not in readers, vlib.sha(t + str(ctx.seed))))
+            of = os.path.join(ctx.work, f"after{li}.json")
+            json.dump([lname] + targets, open(of, "w"))
+            trace = os.path.join(ctx.work, f"after{li}.ndjson")
+            args = ["comp-run", "-order", of, "-after", lname, "-base", "11", "-out", trace]
+            if quick:
+                args += ["-budget", "240s"]
+            p = ctx.run_vh(args, timeout=6000)
+            if p.returncode != 0:
+                raise Infra("vh comp-run -after failed: " + p.stdout[-1500:] + p.stderr[-3000:])
+            order = judge_suite(trace, f"after{li}", 0, 11, "DEFAULT", "NON-DEFAULT-VRF")
+            directed.append({"leaves_entries": lname, "entries_left": left, "followers_run": len([t for t in order if t != lname])})
+        # the fault catalogue
+        cmap = json.load(open(os.path.join(vlib.SPEC, "compliance_map.json")))["faults"]
+        faults = {}
+        for fault, spec in cmap.items():
+            names = spec["quick"] if quick else spec["tests"]
+            flagged, seen_dev = [], False
+            for j, name in enumerate(names):
+                trace = os.path.join(ctx.work, f"fault-{fault}-{j}.ndjson")
+                p = ctx.run_vh(["comp-run", "-fault", fault, "-exact", name, "-base", "5", "-out", trace], timeout=1200)
+                if p.returncode != 0:
+                    raise Infra(f"vh comp-run -fault {fault} failed: " + p.stderr[-2000:])
+                tests = self.tests_of(trace)
+                if len(tests) != 1:
+                    raise Infra(f"fault run {fault}/{name}: expected one test, got {len(tests)}")
+                total, mism = self.validate(ctx, trace, f"validate-{fault}-{j}")
+                events += total
+                segs += 1
+                comps = {c for (_, _, cs) in mism for c in cs}
+                if comps & set(spec["components"]):
+                    seen_dev = True
+                e = tests[0][3]
+                flagged.append({"test": name, "failed_as_required": not e["pass"], "spec_deviations": sorted(comps)})
+                if e["pass"]:
+                    rp = os.path.join(vlib.ROOT, "replays", f"C19-{fault}-{vlib.sha(name)}.json")
+                    json.dump({"property": "C19", "family": "compliance", "fault": fault, "requirement": spec["requirement"], "test": name,
+                               "spec_deviations": sorted(comps), "rerun": f"harness vh comp-run -fault {fault} -exact {name!r}"}, open(rp, "w"), indent=1)
+                    res.violations.append({"replay": rp, "what": f"test {name!r} PASSES against the faulty server {fault!r} (requirement: {spec['requirement']})"})
+                else:
+                    nontrivial += 1
+            if not seen_dev:
+                raise Infra(f"fault wrapper {fault}: TLC found none of the deviations {spec['components']} in its wire traces - the wrapper is not faulty as intended")
+            faults[fault] = flagged
+        res.coverage = {
+            "states": mc.distinct, "transitions": mc.generated, "traces_validated_against_impl": segs, "evaluations": events,
+            "distinct_nontrivial": nontrivial,
+            "rule": "one case = one compliance test executed (in a permuted suite on one long-lived conformant server, or alone against one faulty wrapper) with its wire trace validated by TLC against GribiServer; non-trivial = the verdict is the required one (pass on the conformant server / fail against the wrapper) for a test that was not skipped",
+            "samples": samples + [{"fault": f, "result": v[:2]} for f, v in list(faults.items())[:2]],
+            "permutations": [{"seed": s_, "election_base": b_, "default_ni": d_, "vrf": v_} for (s_, b_, d_, v_) in perms],
+            "directed_orders_after_tests_that_leave_entries": directed, "fault_catalogue": faults,
+            "mismatches_ignored_in_tests_with_overlapping_clients": ignored,
+        }
+        res.assumptions = ["a default network instance with another name is obtained by translating names at the wire of the reference server (which hard-wires DEFAULT); a literal DEFAULT then names no instance",
+                           "tests that run two clients at the same time are not validated at message grain (counted above)",
+                           "permutations are sampled, not enumerated"]
+        return res
+
+    def replay(self, ctx, path):
+        raise Infra("see the 'rerun' field of the replay file")
+
+
+REGISTRY["C19"] = CompFamily("C19")
